@@ -340,34 +340,11 @@ def run(ctx: Ctx):
         mod, _, name = q.rpartition(".")
         if mod not in model.modules or name not in model.modules[mod].functions:
             raise AnalysisError(f"anchor missing: exempt function {q}")
-    # Whittaker: the exemption rests on two pins that are checked here: the point-isotherm path converts its working copy
-    # to a complete literal representation (mode AND unit), the model-isotherm path refuses anything not stored in Pa
-    fw = model.func("pygaps.characterisation.enth_sorp_whittaker.enthalpy_sorption_whittaker")
-    # the function and the private helpers of its module that it calls (a refactoring may move the preparation into one)
-    wmod = model.module("pygaps.characterisation.enth_sorp_whittaker")
-    reach, todo = [], [fw]
-    while todo:
-        f_ = todo.pop()
-        if f_ in reach:
-            continue
-        reach.append(f_)
-        for c in ast.walk(f_.node):
-            if isinstance(c, ast.Call) and isinstance(c.func, ast.Name) and c.func.id in wmod.functions:
-                todo.append(wmod.functions[c.func.id])
-    convs = [c for f_ in reach for c in ast.walk(f_.node) if isinstance(c, ast.Call) and isinstance(c.func, ast.Attribute) and c.func.attr == "convert_pressure"]
-    ctx.floor("convert_pressure calls in enthalpy_sorption_whittaker", len(convs), 1)
-    for c in convs:
-        kw = {k.arg: (k.value.value if isinstance(k.value, ast.Constant) else None) for k in c.keywords}
-        ok = kw.get("mode_to") == "absolute" and kw.get("unit_to") == "Pa"
-        ctx.ob(ok, Finding("C15.R-pin", fw.where, "enthalpy_sorption_whittaker|convert_pressure|pressure representation not pinned",
-                           f"line {c.lineno}: `{ast.unparse(c)}` fixes {'only the unit' if kw.get('unit_to') == 'Pa' else 'neither mode nor unit'}: a point "
-                           "isotherm stored in relative pressure keeps its p/p0 values, which the Whittaker model then treats as Pa"),
-               nontrivial_key=("whittaker", "convert"))
-    guards = [n for f_ in reach for n in ast.walk(f_.node) if isinstance(n, ast.If) and "pressure_unit" in ast.unparse(n.test) and "'Pa'" in ast.unparse(n.test)
-              and any(isinstance(x, ast.Raise) for x in n.body)]
-    ctx.ob(len(guards) >= 1, Finding("C15.R-pin", fw.where, "enthalpy_sorption_whittaker|model-guard|pressure representation not pinned",
-                                     "the model-isotherm path no longer refuses isotherms that are not stored in Pa"),
-           nontrivial_key=("whittaker", "guard"))
+    # Whittaker: the exemption rests on two pins, decided by interpreting the wrapper with recording stubs (shared with C19): the
+    # point-isotherm path converts a copy to a complete representation (mode AND unit) before fitting, the model-isotherm path
+    # refuses anything not stored in Pa
+    from .C19 import r_whittaker_point
+    r_whittaker_point(ctx, model, prop="C15", rule="R-pin")
     # interpolated reads (loading_at / pressure_at feed alpha-s, isosteric, Whittaker, IAST) see the converted numbers
     from ..sites import conversions_drop_caches, no_memoisation
     ctx.rule("R-fresh: every permanent conversion drops the interpolator caches unconditionally; no caching decorator in "
